@@ -547,7 +547,19 @@ fn one_case_fl<F: Fl>(c: &Value) -> Value {
             target: if t == 0 { None } else { Some(t as K) }, transpose: c["dir"] == json!("in"),
             meth: match c["meth"].as_str().unwrap_or("plain") { "plain" => Meth::Plain, "for_each" => Meth::ForEach, _ => Meth::Filter },
             repeat: c["builder_reused"].as_bool().unwrap_or(false) };
-        let o = run_query(&w, c["root"].as_u64().unwrap() as K, &q, &rej);
+        let mut o = run_query(&w, c["root"].as_u64().unwrap() as K, &q, &rej);
+        if q.repeat {
+            // the builder ran twice: a pure traversal examines the same edges both times
+            if let Some(e) = o.examined.take() {
+                let h = e.len() / 2;
+                if e.len() % 2 == 0 && e[..h] == e[h..] {
+                    o.examined = Some(e[..h].to_vec());
+                } else {
+                    o.res = json!({"unsupported": "second use of the same builder examined different edges"});
+                    o.examined = None;
+                }
+            }
+        }
         return json!({"kind": "query", "flavour": F::NAME, "out": st.out, "inn": st.inn, "nval": nval, "query": {"kind": c["kind"], "root": c["root"],
             "dir": c["dir"], "cyc": c["cyc"], "rej": c["rej"], "target": t, "entry": c["entry"], "meth": c["meth"]},
             "res": o.res, "rt": res_tag(&o.res), "examined": o.examined});
